@@ -2,6 +2,7 @@ import Protocol
 import DriverJournal
 import DriverHash
 import DriverRealtime
+import DriverStatic
 open Lean Gtfs Gtfs.Proto
 
 def dispatch (j : Json) : R Json := do
@@ -10,6 +11,9 @@ def dispatch (j : Json) : R Json := do
   | "journal" => DJournal.handle j
   | "hash" => DHash.handle j
   | "realtime" => DRt.handle j
+  | "static" => DStatic.handle j
+  | "none" => pure (jObj [])
+  | "csv" => DStatic.handleCsv j
   | "dirsrc" => DJournal.handleDir j
   | "export" => DJournal.handleExport j
   | k => throw s!"unknown kind {k}"
